@@ -108,7 +108,7 @@ def judge_once(traces, rep):
     return {t['id']: got[i] for i, t in enumerate(traces, start=1)}
 
 PROFILES = "progress,errors".split(',')
-CFGS = "nodoors,lim".split(',')
+CFGS = "nodoors,lim,sub".split(',')
 NEGATIVES = dict(x.split(':') for x in "neg_doors:AtMostOnce".split(',') if ':' in x)
 FEATURES = set("retry,failure,kill,stop,restart-or-relist".split(','))
 
@@ -123,6 +123,8 @@ def run(ctx, rep) -> None:
     scs = []
     for p in PROFILES:
         scs += H.gen_scenarios(ctx.seed, n // len(PROFILES), p)
+    # a handler that registers two sub-handlers whenever it runs (Handling.tla with conf.subs: InvokeSub / ParentEnd)
+    scs += H.gen_scenarios(ctx.seed, 50 if ctx.quick else 1000, 'subs')
     # histories AND handler outcomes drawn by TLC itself (-simulate on Sim_Handling) are replayed into the real operator, too
     tl = H.tlc_scenarios(ctx.seed + 1, 40 if ctx.quick else 800)
     rep.extra['tlc_generated_histories'] = len(tl)
